@@ -578,6 +578,18 @@ def discharge_assert(kind, op, ops, tys, lin, iv, get_facts):
         b = iv.of(ops[1], ty)
         if op == "Add" and a[1] is not None and b[1] is not None and a[1] + b[1] <= hi:
             return True, "D3 interval: %s + %s <= %s::MAX" % (a[1], b[1], ty)
+        if op == "Add" and hi is not None and hi >= A_MEM:
+            # D2m: the sum is bounded by the length of an in-memory sequence (a + b <= len(x) from the path facts; A-MEM)
+            fs = get_facts()
+            sm = linear.lin_add(lin.of_value(ops[0]), lin.of_value(ops[1]))
+            lens = set()
+            for f_ in fs:
+                for at in f_[0]:
+                    if isinstance(at, tuple) and at and at[0] == "len":
+                        lens.add(at)
+            for at in sorted(lens, key=repr)[:8]:
+                if ent(fs, linear.lin_add(sm, linear.atom(at), -1), lin):
+                    return True, "D2m: a + b <= len(..) from path facts, lengths are below 2^56 (A-MEM)"
         if op == "Mul" and a[1] is not None and b[1] is not None and a[1] * b[1] <= hi:
             return True, "D3 interval: %s * %s <= %s::MAX" % (a[1], b[1], ty)
         if op == "Sub":
